@@ -7,6 +7,8 @@ the function *undecided* (never a violation).
 """
 import ast
 
+import z3
+
 from z3 import (And, ArraySort, BoolVal, Const, If, Implies, IntVal, K, Not, Or, Store, is_false, is_true, simplify)
 
 from vlib.vc.model import *  # noqa
@@ -81,6 +83,13 @@ class ObjV:
     def __init__(self, cls, attrs=None):
         self.cls = cls
         self.attrs = attrs or {}
+
+
+class PyV:
+    """concrete Python value (module-level constant tables read from the source)"""
+
+    def __init__(self, v):
+        self.v = v
 
 
 class ExcClassV:
@@ -175,6 +184,9 @@ class Exec:
         self.loop_ord = 0
         self.paths_out = []
         self.calls = []         # names of contracts used (for trusted-base reporting)
+        self.entry_mgrs = {}
+        self.side_paths = []
+        self.assumed_builtins = set()
 
     # ------------------------------------------------------------------ obligations
     def oblige(self, p, name, goal, line=None):
@@ -185,6 +197,14 @@ class Exec:
         self.obls.append((f'{self.qual}#{name}', list(p.pc), goal, dict(line=line, trace=list(p.trace))))
 
     # ------------------------------------------------------------------ helpers
+    def name_it(self, p, z, hint='k'):
+        """give a compound term a name (fresh constant + equation) so that array stores stay pattern-friendly"""
+        if z.num_args() == 0:
+            return z
+        c = fresh(hint, z.sort())
+        p.pc.append(c == z)
+        return c
+
     def state(self, p, v):
         if isinstance(v, MgrV):
             return p.mgrs[v.key]
@@ -238,7 +258,13 @@ class Exec:
     def ev_UnaryOp(self, e, p):
         v = self.ev(e.operand, p)
         if isinstance(e.op, ast.USub):
-            return IntV(-zint(v, self, p, f'@{e.lineno}'))
+            z = zint(v, self, p, f'@{e.lineno}')
+            if z.num_args() == 0 and not z3.is_int_value(z):
+                # name the negation and tell the solver that it points to the same node (E-matching hint)
+                m = fresh('neg')
+                p.pc.append(And(m == -z, absz(m) == absz(z)))
+                return IntV(m)
+            return IntV(-z)
         if isinstance(e.op, ast.Not):
             return BoolV(Not(truth(v)))
         raise Unsupported(f'unary {type(e.op).__name__}')
@@ -257,7 +283,18 @@ class Exec:
     def ev_BoolOp(self, e, p):
         # operands without calls are evaluated eagerly (no side effects); Python value semantics of and/or
         # are only needed as truth values at our use sites
-        vs = [truth(self.ev(x, p)) for x in e.values]
+        vs = []
+        pushed = 0
+        try:
+            for x in e.values:
+                t = truth(self.ev(x, p))
+                vs.append(t)
+                # short circuit: later operands are evaluated only if this one is true (and) / false (or)
+                p.pc.append(t if isinstance(e.op, ast.And) else Not(t))
+                pushed += 1
+        finally:
+            for _ in range(pushed):
+                p.pc.pop()
         return BoolV(And(*vs) if isinstance(e.op, ast.And) else Or(*vs))
 
     def ev_IfExp(self, e, p):
@@ -280,6 +317,15 @@ class Exec:
         if isinstance(op, (ast.In, ast.NotIn)):
             res = self.contains(self.ev(l, p), r, p, e.lineno)
             return BoolV(res if isinstance(op, ast.In) else Not(res))
+        if (isinstance(l, ast.BinOp) and isinstance(l.op, ast.Mult) and isinstance(r, ast.Constant) and r.value == 0
+                and isinstance(op, (ast.LtE, ast.Lt, ast.Gt, ast.GtE))):
+            # sign test of a product, kept linear: x*y <= 0  <=>  x == 0 or y == 0 or signs differ
+            x = zint(self.ev(l.left, p), self, p)
+            y = zint(self.ev(l.right, p), self, p)
+            zero = Or(x == 0, y == 0)
+            diff = (x > 0) != (y > 0)
+            return BoolV({ast.LtE: Or(zero, diff), ast.Lt: And(Not(zero), diff), ast.Gt: And(Not(zero), Not(diff)),
+                          ast.GtE: Or(zero, Not(diff))}[type(op)])
         a, b = self.ev(l, p), self.ev(r, p)
         if isinstance(op, (ast.Is, ast.Eq)):
             return BoolV(self.eq(a, b, isinstance(op, ast.Is)))
@@ -300,8 +346,7 @@ class Exec:
         if isinstance(a, ExcClassV) and isinstance(b, ExcClassV):
             return BoolVal(a.name == b.name)
         if isinstance(a, ExcClassV) or isinstance(b, ExcClassV):
-            other = b if isinstance(a, ExcClassV) else a
-            return BoolVal(False) if not isinstance(other, (IntV, NameV)) else Not(is_none(other)) & BoolVal(False)
+            return BoolVal(False)
         if isinstance(a, NameV) and isinstance(b, NameV):
             return And(is_none(a) == is_none(b), Or(is_none(a), a.z == b.z))
         if isinstance(a, (IntV, BoolV)) and isinstance(b, (IntV, BoolV)):
@@ -319,6 +364,15 @@ class Exec:
         if isinstance(container, (ast.Tuple, ast.Set, ast.List)):
             items = [self.ev(x, p) for x in container.elts]
             return Or(*[self.eq(key, it) for it in items]) if items else BoolVal(False)
+        if isinstance(container, (ast.Name, ast.Subscript)):
+            try:
+                cv = self.ev(container, p)
+            except Unsupported:
+                cv = None
+            if isinstance(cv, PyV):
+                if not isinstance(key, StrV):
+                    raise Unsupported(f'symbolic key in constant table@{line}')
+                return BoolVal(key.v in cv.v)
         c = self.ev_container(container, p)
         return self.has(c, key, p, line)
 
@@ -367,6 +421,8 @@ class Exec:
         raise Unsupported(f'container {ast.unparse(e)}@{e.lineno}')
 
     def as_fork(self, v, p):
+        if isinstance(v, TupV) and len(v.items) == 2:
+            v = TupV(list(v.items) + [IntV(IntVal(0))])
         if not (isinstance(v, TupV) and len(v.items) == 3):
             raise Unsupported('fork key')
         zs = []
@@ -397,6 +453,12 @@ class Exec:
             return NameV(v.arr[kz]) if v.elem == 'name' else IntV(v.arr[kz])
         if isinstance(v, TupV) and isinstance(e.slice, ast.Constant):
             return v.items[e.slice.value]
+        if isinstance(v, PyV):
+            key = self.ev(e.slice, p)
+            if not isinstance(key, StrV):
+                raise Unsupported(f'symbolic key in constant table@{e.lineno}')
+            r = v.v[key.v]
+            return StrV(r) if isinstance(r, str) else PyV(r)
         raise Unsupported(f'subscript {ast.unparse(e)}@{e.lineno}')
 
     def dict_val(self, v, kz):
@@ -562,6 +624,11 @@ class Exec:
         raise Unsupported(f'isinstance {t}')
 
     def builtin_dict(self, e, p):
+        if len(e.args) == 1 and not e.keywords and isinstance(e.args[0], ast.Attribute):
+            mv = self.mgr_of_expr(e.args[0].value, p)
+            if mv is not None and e.args[0].attr == 'vars':
+                S = p.mgrs[mv.key]
+                return DictV(S.vin, S.v2l, 'int', 'name')
         if e.args or e.keywords:
             raise Unsupported('dict(...)')
         return self.empty_dict(e)
@@ -573,8 +640,36 @@ class Exec:
 
     def builtin_set(self, e, p):
         if e.args:
+            v = self.ev(e.args[0], p)
+            if isinstance(v, SetV):
+                return v.copy()
             raise Unsupported('set(x)')
         return SetV(K(I, BoolVal(False)))
+
+    def builtin_sorted(self, e, p):
+        """builtin (assumed, listed in the trusted base): sorted(set of ints) is the strictly increasing list of
+        exactly its elements; `idx` is the witness of "every element occurs"."""
+        v = self.ev(e.args[0], p)
+        if len(e.args) != 1 or e.keywords:
+            raise Unsupported('sorted(...)')
+        if isinstance(v, DictV) and v.kkind == 'int':
+            has = v.has
+        elif isinstance(v, SetV) and v.kkind == 'int':
+            has = v.has
+        else:
+            raise Unsupported('sorted of non-int container')
+        arr, n = fresh('sorted', ArraySort(I, I)), fresh('sorted_n')
+        from z3 import ForAll, Function, Int, MultiPattern
+        idx = Function(f'sorted_idx!{next(M._cnt)}', I, I)
+        k1, k2, l1 = Int('k1!s'), Int('k2!s'), Int('l!s')
+        p.pc += [n >= 0,
+                 ForAll([k1, k2], Implies(And(0 <= k1, k1 < k2, k2 < n), arr[k1] < arr[k2]), patterns=[MultiPattern(arr[k1], arr[k2])]),
+                 ForAll([k1], Implies(And(0 <= k1, k1 < n), has[arr[k1]]), patterns=[arr[k1]]),
+                 ForAll([l1], Implies(has[l1], And(0 <= idx(l1), idx(l1) < n, arr[idx(l1)] == l1)), patterns=[has[l1]])]
+        self.assumed_builtins.add('sorted')
+        lst = ListV(arr, n)
+        lst.idx = idx
+        return lst
 
     def container_method(self, e, p):
         f = e.func
@@ -596,6 +691,36 @@ class Exec:
                 if meth == 'get' and fld == '_level_to_var' and len(args) == 1:
                     kz = zint(args[0], self, p)
                     return NameV(S.l2v[kz], Not(S.lin[kz]))
+                if meth == 'setdefault' and fld == '_succ' and len(args) == 2:
+                    kz = zint(args[0], self, p)
+                    t = args[1]
+                    had = S.dom[kz]
+                    old = TupV([IntV(S.lvl[kz]), IntV(S.lo[kz], S.lo[kz] == 0), IntV(S.hi[kz], S.hi[kz] == 0)])
+                    # store only when absent: modelled by forking on presence
+                    pa = p  # present / absent handled with If on the returned value; the store is guarded
+                    S2 = S.copy()
+                    lvl_ = zint(t.items[0], self, p)
+                    lo_ = If(is_none(t.items[1]), 0, t.items[1].z)
+                    hi_ = If(is_none(t.items[2]), 0, t.items[2].z)
+                    self.store_node(S2, kz, lvl_, lo_, hi_, p, e.lineno, guard=Not(had))
+                    # the result state: fresh arrays constrained per case (keeps quantifier patterns free of `if`)
+                    S3 = State(base=S, modifies=[f_ for f_ in M.FIELDS if getattr(S2, f_) is not getattr(S, f_)] + ['nsucc'])
+                    eqs_had, eqs_new = [], []
+                    for f_ in list(M.FIELDS) + ['nsucc']:
+                        if getattr(S3, f_) is not getattr(S, f_):
+                            eqs_had.append(getattr(S3, f_) == getattr(S, f_))
+                            eqs_new.append(getattr(S3, f_) == getattr(S2, f_))
+                    p.pc.append(If(had, And(*eqs_had), And(*eqs_new)))
+                    for f_ in list(M.FIELDS) + ['nsucc']:
+                        setattr(S, f_, getattr(S3, f_))
+                    r0 = self.name_it(p, If(had, old.items[0].z, lvl_), 'sd')
+                    r1 = self.name_it(p, If(had, old.items[1].z, lo_), 'sd')
+                    r2 = self.name_it(p, If(had, old.items[2].z, hi_), 'sd')
+                    return TupV([IntV(r0), IntV(r1, r1 == 0), IntV(r2, r2 == 0)])
+                if meth == 'pop' and fld == '_pred' and len(args) == 2:
+                    kf = self.name_it(p, self.as_fork(args[0], p), 'fk')
+                    S.ph = Store(S.ph, kf, False)
+                    return NONE()
                 if meth == 'setdefault' and fld == '_ref' and len(args) == 2:
                     kz = zint(args[0], self, p)
                     # _ref.setdefault(u, c): only used for the terminal in _init_terminal
@@ -618,11 +743,15 @@ class Exec:
             raise Unsupported('dict.get of bool')
         if isinstance(v, SetV) and meth == 'add' and len(args) == 1:
             kz = args[0].z if v.kkind == 'name' else zint(args[0], self, p)
-            v.has = Store(v.has, kz, True)
+            v.has = Store(v.has, self.name_it(p, kz, 'sk'), True)
             return NONE()
         return NotImplemented
 
     def call_contract(self, qual, args, kwargs, p, e):
+        for a_ in args[1:2]:
+            tag = {DictV: 'dict', SetV: 'set'}.get(type(a_))
+            if tag and f'{qual}:{tag}' in self.reg:
+                qual = f'{qual}:{tag}'
         c = self.reg[qual]
         self.calls.append(qual)
         line = e.lineno
@@ -645,10 +774,15 @@ class Exec:
                     raise Unsupported(f'missing argument {n} for {qual}@{line}')
         mkey = bound[c.mgr].key if c.mgr in bound and isinstance(bound[c.mgr], MgrV) else None
         S0 = p.mgrs[mkey] if mkey is not None else None
+        self._check_none = True
         zargs = self.z_args(c, bound, p)
+        self._check_none = False
         ctx = Ctx(S=S0, S0=S0, a=Ctx(**zargs), mgrs=p.mgrs, uses=self.c.uses, path=p, ex=self)
         pre_list = list(c.pre(ctx)) + (list(c.call_pre(ctx)) if getattr(c, 'call_pre', None) else [])
+        skip = getattr(c, 'call_skip', set()) if c is self.c else set()
         for nm, g in pre_list:
+            if nm in skip:
+                continue    # recursive call passing its own unchanged parameters: the clause is the caller's precondition
             self.oblige(p, f'call-pre:{c.name.split(".")[-1]}.{nm}@{line}', g, line)
         # exceptional outcomes
         for exc, rs in c.raises.items():
@@ -659,10 +793,9 @@ class Exec:
             if rs.post is not None:
                 for _, g in rs.post(ectx):
                     q.pc.append(g)
-            elif S0 is not None:
-                S1e = S0
-            if mkey is not None:
-                q.mgrs[mkey] = S1e
+                if mkey is not None:
+                    q.mgrs[mkey] = S1e if S1e is not S0 else S0.copy()
+            # (no exceptional post: state unchanged, q keeps its own copy of the entry state)
             q.status, q.exc, q.line = 'raise', exc, line
             q.exc_from = qual
             self.side_paths.append(q)
@@ -698,6 +831,8 @@ class Exec:
             elif isinstance(v, IntV):
                 out[n] = v.z
                 out[n + '_none'] = is_none(v)
+                if kind == 'int' and v.none is not None and p is not None and getattr(self, '_check_none', False):
+                    self.oblige(p, f'typeerror:None-passed-for-{n}', Not(v.none))
             elif isinstance(v, BoolV):
                 if kind in ('int', 'optint'):
                     out[n] = If(v.z, 1, 0)
@@ -734,6 +869,19 @@ class Exec:
             return NameV(r), r
         if c.ret == 'none':
             return NONE(), None
+        if c.ret.startswith('set:'):
+            ks = {'int': I, 'name': M.Name}[c.ret[4:]]
+            v = SetV(fresh('rs', ArraySort(ks, B)), c.ret[4:])
+            return v, v
+        if c.ret.startswith('dict:'):
+            k, vk = c.ret[5:].split('->')
+            ks = {'int': I, 'name': M.Name}[k]
+            vs = {'int': I, 'bool': B, 'name': M.Name}[vk]
+            v = DictV(fresh('rdh', ArraySort(ks, B)), fresh('rdv', ArraySort(ks, vs)), vk, k)
+            return v, v
+        if c.ret == 'list:int':
+            v = ListV(fresh('rl', ArraySort(I, I)), fresh('rln'))
+            return v, v
         raise Unsupported(f'ret kind {c.ret}')
 
     # ------------------------------------------------------------------ statements
@@ -833,6 +981,7 @@ class Exec:
             if isinstance(base, DictV):
                 key = self.ev(tgt.slice, p)
                 kz = key.z if base.kkind == 'name' else (self.as_fork(key, p) if base.kkind == 'fork' else zint(key, self, p))
+                kz = self.name_it(p, kz, 'dk')
                 base.has = Store(base.has, kz, True)
                 if base.vkind == 'bool':
                     base.val = Store(base.val, kz, truth(val))
@@ -845,12 +994,12 @@ class Exec:
 
     def write_field(self, S, fld, key, val, p, line):
         if fld == '_pred':
-            kf = self.as_fork(key, p)
+            kf = self.name_it(p, self.as_fork(key, p), 'fk')
             S.ph = Store(S.ph, kf, True)
             S.pv = Store(S.pv, kf, zint(val, self, p))
             return
         if fld == '_ite_table':
-            kf = self.as_fork(key, p)
+            kf = self.name_it(p, self.as_fork(key, p), 'fk')
             S.ch = Store(S.ch, kf, True)
             S.cv = Store(S.cv, kf, zint(val, self, p, f'@{line}'))
             return
@@ -881,12 +1030,13 @@ class Exec:
             return
         raise Unsupported(f'write {fld}@{line}')
 
-    def store_node(self, S, kz, lvl_, lo_, hi_, p, line):
+    def store_node(self, S, kz, lvl_, lo_, hi_, p, line, guard=None):
         """Engine rule (DESIGN 2.3/2.4/2.5): a *fresh* `_succ` entry extends every ghost family; overwriting the
         terminal's entry (the only overwrite in contracted code, `_init_terminal`) keeps its ghost values."""
         fresh_case = Not(S.dom[kz])
         term_case = And(kz == 1, lo_ == 0, hi_ == 0)
-        self.oblige(p, f'node-write-is-fresh-or-terminal@{line}', Or(fresh_case, term_case), line)
+        self.oblige(p, f'node-write-is-fresh-or-terminal@{line}',
+                    Or(fresh_case, term_case) if guard is None else Implies(guard, Or(fresh_case, term_case)), line)
         isnew = And(fresh_case, Not(term_case))
         old = S.copy()
         S.nsucc = If(old.dom[kz], old.nsucc, old.nsucc + 1)
@@ -917,9 +1067,13 @@ class Exec:
         self.side_paths = []
         out = []
         if not is_false(c):
-            out += self.run_block(st.body, [p.fork(c)])
+            pt = p.fork(c)
+            pt.trace.append(('if', st.lineno, True))
+            out += self.run_block(st.body, [pt])
         if not is_true(c):
-            out += self.run_block(st.orelse, [p.fork(Not(c))])
+            pf = p.fork(Not(c))
+            pf.trace.append(('if', st.lineno, False))
+            out += self.run_block(st.orelse, [pf])
         self.side_paths = sides
         return out
 
@@ -992,8 +1146,14 @@ class Exec:
 
     # ---- loops --------------------------------------------------------------------------------------------
     def loop_spec(self, st):
-        k = self.loop_ord
-        self.loop_ord += 1
+        if not hasattr(self, '_loop_ids'):
+            self._loop_ids = {}
+            for n in ast.walk(self.fn):
+                if isinstance(n, (ast.While, ast.For)):
+                    self._loop_ids[id(n)] = (n.lineno, n.col_offset)
+            order = sorted(set(self._loop_ids.values()))
+            self._loop_ids = {k_: order.index(v_) for k_, v_ in self._loop_ids.items()}
+        k = self._loop_ids[id(st)]
         spec = self.c.loops.get(k)
         if spec is None:
             raise Unsupported(f'loop #{k}@{st.lineno} has no invariant in the contract')
@@ -1001,14 +1161,14 @@ class Exec:
 
     def st_While(self, st, p):
         k, spec = self.loop_spec(st)
-        ctx0 = Ctx(mgrs=p.mgrs, env0=dict(p.env), env=p.env, uses=self.c.uses, ex=self, path=p)
+        ctx0 = Ctx(mgrs=p.mgrs, env0=dict(p.env), env=p.env, uses=self.c.uses, ex=self, path=p, entry=self.entry_mgrs)
         for nm, g in spec['inv'](ctx0):
             self.oblige(p, f'loop{k}-inv-init:{nm}@{st.lineno}', g, st.lineno)
         entry_env = dict(p.env)
         ph_ = p.fork()
         for v in spec.get('modifies', []):
             ph_.env[v] = IntV(fresh(v))
-        ctxh = Ctx(mgrs=ph_.mgrs, env0=entry_env, env=ph_.env, uses=self.c.uses, ex=self, path=ph_)
+        ctxh = Ctx(mgrs=ph_.mgrs, env0=entry_env, env=ph_.env, uses=self.c.uses, ex=self, path=ph_, entry=self.entry_mgrs)
         for _, g in spec['inv'](ctxh):
             ph_.pc.append(g)
         out = []
@@ -1017,7 +1177,7 @@ class Exec:
         for q in self.run_block(st.body, [pb]):
             if q.status in ('run', 'continue'):
                 q.status = 'run'
-                ctxq = Ctx(mgrs=q.mgrs, env0=entry_env, env=q.env, uses=self.c.uses, ex=self, path=q)
+                ctxq = Ctx(mgrs=q.mgrs, env0=entry_env, env=q.env, uses=self.c.uses, ex=self, path=q, entry=self.entry_mgrs)
                 for nm, g in spec['inv'](ctxq):
                     self.oblige(q, f'loop{k}-inv-preserved:{nm}@{st.lineno}', g, st.lineno)
                 if 'variant' in spec:
@@ -1048,7 +1208,7 @@ class Exec:
             raise Unsupported(f'for target/else@{st.lineno}')
         var = st.target.id
         entry_env = dict(p.env)
-        ctx0 = Ctx(mgrs=p.mgrs, env0=entry_env, env=p.env, idx=lo_, lo=lo_, hi=hi_, uses=self.c.uses, ex=self, path=p)
+        ctx0 = Ctx(mgrs=p.mgrs, env0=entry_env, env=p.env, idx=lo_, lo=lo_, hi=hi_, uses=self.c.uses, ex=self, path=p, entry=self.entry_mgrs)
         for nm, g in spec['inv'](ctx0):
             self.oblige(p, f'loop{k}-inv-init:{nm}@{st.lineno}', g, st.lineno)
         out = []
@@ -1060,13 +1220,13 @@ class Exec:
         for mk in spec.get('modifies_mgr', []):
             key, fields = mk
             ph_.mgrs[key] = State(base=ph_.mgrs[key], modifies=fields)
-        ctxh = Ctx(mgrs=ph_.mgrs, env0=entry_env, env=ph_.env, idx=iv, lo=lo_, hi=hi_, uses=self.c.uses, ex=self, path=ph_)
+        ctxh = Ctx(mgrs=ph_.mgrs, env0=entry_env, env=ph_.env, idx=iv, lo=lo_, hi=hi_, uses=self.c.uses, ex=self, path=ph_, entry=self.entry_mgrs)
         inv_h = [g for _, g in spec['inv'](ctxh)]
         pb = ph_.fork(And(lo_ <= iv, iv < hi_, *inv_h))
         pb.env[var] = elem(iv)
         for q in self.run_block(st.body, [pb]):
             if q.status in ('run', 'continue'):
-                ctxq = Ctx(mgrs=q.mgrs, env0=entry_env, env=q.env, idx=iv + 1, lo=lo_, hi=hi_, uses=self.c.uses, ex=self, path=q)
+                ctxq = Ctx(mgrs=q.mgrs, env0=entry_env, env=q.env, idx=iv + 1, lo=lo_, hi=hi_, uses=self.c.uses, ex=self, path=q, entry=self.entry_mgrs)
                 for nm, g in spec['inv'](ctxq):
                     self.oblige(q, f'loop{k}-inv-preserved:{nm}@{st.lineno}', g, st.lineno)
             elif q.status == 'break':
@@ -1076,7 +1236,7 @@ class Exec:
         # exit after all iterations (or none)
         pe = ph_.fork()
         ivx = fresh('idx')
-        ctxe = Ctx(mgrs=pe.mgrs, env0=entry_env, env=pe.env, idx=ivx, lo=lo_, hi=hi_, uses=self.c.uses, ex=self, path=pe)
+        ctxe = Ctx(mgrs=pe.mgrs, env0=entry_env, env=pe.env, idx=ivx, lo=lo_, hi=hi_, uses=self.c.uses, ex=self, path=pe, entry=self.entry_mgrs)
         pe.pc.append(And(ivx == If(hi_ >= lo_, hi_, lo_), *[g for _, g in spec['inv'](ctxe)]))
         out.append(pe)
         return out
